@@ -3,7 +3,7 @@ use ppp_verif::{props, selftest};
 use std::process::exit;
 
 fn usage() -> ! {
-    eprintln!("usage: ppp-verif <C01..C20> [--tier quick|thorough] [--replay <file>] [--only <stage-substring>] [--evidence-out <file>] [--no-evidence]");
+    eprintln!("usage: ppp-verif <C01..C20> [--tier quick|thorough] [--replay <file>] [--only <stage-substring>] [--evidence-out <file>] [--no-evidence] [--triage] [--replay-tape <file> --stage <name>]");
     exit(2);
 }
 
@@ -27,6 +27,9 @@ fn main() {
     let mut evidence_out: Option<String> = None;
     let mut no_evidence = false;
     let mut merge_evidence: Option<String> = None;
+    let mut triage = false;
+    let mut replay_tape: Option<String> = None;
+    let mut stage: Option<String> = None;
     let mut i = 1;
     while i < args.len() {
         match args[i].as_str() {
@@ -51,6 +54,19 @@ fn main() {
                 evidence_out = Some(args.get(i).cloned().unwrap_or_else(|| usage()));
             }
             "--no-evidence" => no_evidence = true,
+            "--triage" => {
+                triage = true;
+                no_evidence = true;
+            }
+            "--replay-tape" => {
+                i += 1;
+                replay_tape = Some(args.get(i).cloned().unwrap_or_else(|| usage()));
+                no_evidence = true;
+            }
+            "--stage" => {
+                i += 1;
+                stage = Some(args.get(i).cloned().unwrap_or_else(|| usage()));
+            }
             "--merge-evidence" => {
                 i += 1;
                 merge_evidence = Some(args.get(i).cloned().unwrap_or_else(|| usage()));
@@ -69,8 +85,65 @@ fn main() {
 
     let mut r = Runner::new(prop, tier, seed, verif_dir.clone());
     r.known = load_known(&verif_dir);
-    if replay.is_none() {
+    if replay.is_none() && !triage && replay_tape.is_none() {
         r.regress = ppp_verif::engine::load_regress(&verif_dir, prop);
+    }
+    r.triage = triage;
+    if let Some(path) = &replay_tape {
+        let cells: Option<Vec<u32>> = std::fs::read(path).ok().and_then(|b| {
+            if b.len() < 4 {
+                return None;
+            }
+            let n = u32::from_le_bytes([b[0], b[1], b[2], b[3]]) as usize;
+            if b.len() < 4 + 4 * n {
+                return None;
+            }
+            Some((0..n).map(|i| u32::from_le_bytes([b[4 + 4 * i], b[5 + 4 * i], b[6 + 4 * i], b[7 + 4 * i]])).collect())
+        });
+        match (cells, stage.clone()) {
+            (Some(c), Some(s)) => r.replay_tape = Some((s, c)),
+            _ => {
+                eprintln!("HARNESS-ERROR --replay-tape needs a readable tape file and --stage");
+                exit(2);
+            }
+        }
+    }
+    // a saved crash / stall case is replayed in a child process, so that the verdict survives the crash
+    if let Some(path) = &replay {
+        let is_child = std::env::var("VERIF_REPLAY_CHILD").is_ok();
+        let sig = std::fs::read(path).ok().and_then(|t| serde_json::from_slice::<serde_json::Value>(&t).ok()).and_then(|v| v.get("sig").and_then(|s| s.as_str()).map(|s| s.to_string())).unwrap_or_default();
+        if !is_child && (sig.starts_with("crash:") || sig.starts_with("hang:")) {
+            let exe = std::env::current_exe().unwrap();
+            let mut child = std::process::Command::new(exe).args(&args).env("VERIF_REPLAY_CHILD", "1").stdout(std::process::Stdio::null()).stderr(std::process::Stdio::null()).spawn().unwrap();
+            let t0 = std::time::Instant::now();
+            let limit = ppp_verif::engine::hang_secs();
+            let verdict = loop {
+                match child.try_wait() {
+                    Ok(Some(st)) => break match st.code() { Some(0) | Some(1) | Some(2) => None, _ => Some("the process died again") },
+                    Ok(None) => {
+                        if t0.elapsed().as_secs() >= limit {
+                            let _ = child.kill();
+                            let _ = child.wait();
+                            break Some("no result again");
+                        }
+                        std::thread::sleep(std::time::Duration::from_millis(50));
+                    }
+                    Err(_) => break None,
+                }
+            };
+            match verdict {
+                Some(what) => {
+                    println!("VIOLATION property={} replay={}", prop, path);
+                    println!("  sig={}", sig);
+                    println!("  observed: {}", what);
+                    exit(1);
+                }
+                None => {
+                    println!("REPLAY-PASS property={}", prop);
+                    exit(0);
+                }
+            }
+        }
     }
     r.only = only;
     if let Some(path) = &replay {
@@ -112,6 +185,23 @@ fn main() {
         }
     };
 
+    if triage {
+        for v in &r.violations {
+            println!("VIOLATION property={} replay={}", prop, v.replay_path);
+            println!("  check={} sig={}", v.stage, v.fail.sig);
+            println!("  expected: {}", v.fail.expected);
+            println!("  observed: {}", v.fail.observed);
+            println!("  case: {}", ppp_verif::imp::short(&v.case.to_string()));
+        }
+        if r.violations.is_empty() {
+            eprintln!("INCONCLUSIVE {}: the run ended abnormally but no journalled case reproduces a crash or a stall", prop);
+            exit(2);
+        }
+        exit(1);
+    }
+    if replay_tape.is_some() {
+        exit(if r.violations.is_empty() { 0 } else { 1 });
+    }
     if replay.is_some() && !r.replay_hit {
         eprintln!("HARNESS-ERROR replay file names check {:?} which {} does not have", r.replay.as_ref().unwrap().0, prop);
         exit(2);
